@@ -1,5 +1,5 @@
 (* C20 - Data catalog entries are stable, isolated and round-trip values. *)
-From Verif Require Import Base.Prelude Model.Catalog Proofs.CatalogProofs Proofs.FactsCatalog Gen.CatalogFacts.
+From Verif Require Import Base.Prelude Model.Catalog Proofs.CatalogProofs Proofs.CatalogHistory Proofs.FactsCatalog Gen.CatalogFacts.
 
 (* names outside the documented alphabet are rejected, names inside are accepted: the
    validator is the extracted re function applied to the extracted class *)
@@ -49,6 +49,22 @@ Section RoundTrip.
   Theorem C20_load_save_other : forall s p q v,
     p <> q -> load value loads (save value dumps s p v) q = load value loads s q.
   Proof. apply load_save_other. Qed.
+
+  (* over ANY history of saves the store refines "location -> value written last" *)
+  Theorem C20_store_refines_last_write : forall ops s p,
+    load value loads (run_saves value dumps s ops) p =
+    match last_saved value ops p None with Some v => Some v | None => load value loads s p end.
+  Proof. apply run_saves_load; assumption. Qed.
+
+  Theorem C20_last_write_wins : forall s ops1 p v ops2,
+    (forall o, In o ops2 -> fst o <> p) ->
+    load value loads (run_saves value dumps s (ops1 ++ (p, v) :: ops2)) p = Some v.
+  Proof. apply last_write_wins; assumption. Qed.
+
+  Theorem C20_untouched_entry_unchanged : forall s ops p,
+    (forall o, In o ops -> fst o <> p) ->
+    load value loads (run_saves value dumps s ops) p = load value loads s p.
+  Proof. apply untouched_entry_unchanged; assumption. Qed.
 End RoundTrip.
 
 Print Assumptions C20_name_validator_spec.
@@ -56,5 +72,8 @@ Print Assumptions C20_prefix_match_would_be_wrong.
 Print Assumptions C20_entries_isolated.
 Print Assumptions C20_catalogs_isolated.
 Print Assumptions C20_value_and_node_files_differ.
+Print Assumptions C20_store_refines_last_write.
+Print Assumptions C20_last_write_wins.
+Print Assumptions C20_untouched_entry_unchanged.
 Print Assumptions C20_load_save.
 Print Assumptions C20_load_save_other.
